@@ -21,3 +21,5 @@ mod c02_fees;
 mod c14_impact_distribution;
 #[cfg(kani)]
 mod c12_funding;
+#[cfg(kani)]
+mod c03_price_impact;
